@@ -272,7 +272,7 @@ m("c20-typecache-store-after-yield", "C20", "nbt/typeinfo.go",
 
 
 def sh(cmd, cwd=None, timeout=3600, env=ENV):
-    p = subprocess.run(cmd, shell=True, cwd=cwd, env=env, stdout=subprocess.PIPE, stderr=subprocess.STDOUT, text=True, timeout=timeout)
+    p = subprocess.run(cmd, shell=True, cwd=cwd, env=env, stdout=subprocess.PIPE, stderr=subprocess.STDOUT, text=True, errors="replace", timeout=timeout)
     return p.returncode, p.stdout
 
 
